@@ -146,3 +146,23 @@ func Sig(id, tag byte) []byte { return []byte{'s', id, tag} }
 
 // KeyID is the 2-byte big-endian key id of the simple proof scheme.
 func KeyID(i int) []byte { return []byte{byte(i >> 8), byte(i)} }
+
+// OkKey accepts every signature: for harnesses about what happens after admission.
+type OkKey struct{ ID byte }
+
+func (k OkKey) PubKeyBytes() []byte { return []byte{'o', k.ID} }
+func (k OkKey) Equal(o gcrypto.PubKey) bool {
+	ok, is := o.(OkKey)
+	return is && ok == k
+}
+func (k OkKey) Verify(msg, sig []byte) bool { return true }
+func (k OkKey) TypeName() string            { return "okkey" }
+
+// OkKeys returns n always-valid keys.
+func OkKeys(n int) []gcrypto.PubKey {
+	ks := make([]gcrypto.PubKey, n)
+	for i := range ks {
+		ks[i] = OkKey{ID: byte(i)}
+	}
+	return ks
+}
